@@ -25,13 +25,13 @@ QUICK_WORLDS = ["hubpro_T3_b2", "hubre_T2_b0", "pairs_T1_b2", "pairs_T2_b0", "pa
                 "multi_TriR_b2"]
 STRICT_QUICK = ["multi_T2u_b1"]
 COVER_QUICK = "multi_T2u_b1"        # the run that carries TLC's own per-action coverage (expensive: one small world)
-SIM_QUICK = [("pairs_T2_b2", 5), ("multi_T2_b1", 5), ("multi_Tri_b2", 5)]
-TRACE_QUICK = ["hubre_T2_b0", "pairs_T2_b2", "multi_T1_b0", "multi_T2_b1", "multi_Tri_b2"]
+SIM_QUICK = [("pairs_T2_b2", 4), ("multi_Tri_b2", 5)]
+TRACE_QUICK = ["hubre_T2_b0", "pairs_T2_b2", "multi_T1_b0", "multi_T2_b1", "multi_TriR_b2"]
 # spec cases (tags logged by the actions) that the exported behaviours of a tier must exercise
 NEED_TAGS = ["flow", "flood", "pair", "path", "repath", "lldp-drop", "unreach", "flood-unbuffered", "unreach-leak",
              "holddown-flood"]
 NEED_ACTIONS = {"hub_pro": ["Send"], "hub_re": ["Send", "Move"], "pairs": ["Send", "Move"],
-                "multi": ["Send", "Tick", "Cut", "Restore", "Detect"]}
+                "multi": ["Send", "Tick", "Cut", "Restore", "Detect", "DetectBusy"]}
 
 
 def split(name):
@@ -66,6 +66,37 @@ def run(ctx):
   ]
   allw = [n for _, n, _ in gc.all_names()]
   worlds = QUICK_WORLDS if quick else allw
+  # ---- 0. code -> spec, first half: the seeded random driver on the real code (validated by TLC below)
+  t0 = time.time()
+  tw = TRACE_QUICK if quick else [n for n in allw]
+  ntr = 14 if quick else 80
+  length = 24 if quick else 40
+  items = []
+  for n in tw:
+    w, nb = split(n)
+    for i in range(ntr):
+      items.append(dict(world=w, nbuf=nb, variant=(ctx.seed + i) % 24, seed=ctx.seed * 100003 + i * 31 + len(n), n=length))
+  out = core.run_driver("props.X03:drive", items, chunk=4 if quick else 10)
+  phases = {}
+  phases["driver_s"] = round(time.time() - t0, 1)
+  by = {}
+  for it, tr in zip(items, out):
+    by.setdefault("%s_b%d" % (it["world"], it["nbuf"]), []).append((it, tr))
+  vres = {}
+
+  def vjob(n):
+    trs = [tr for _, tr in by[n]]
+    negs = []
+    for kind in ("out", "bufs", "tbl"):
+      for tr in trs:
+        if all(e["wf"] for e in tr):
+          b = _corrupt(tr, kind)
+          if b is not None:
+            negs.append((kind, b))
+            break
+    r, rej = tracecheck.validate("forwarding", "TraceForwarding", "Trace_%s.cfg" % n, trs + [b for _, b in negs],
+                                 tag="X03", timeout=1500)
+    vres[n] = (r, dict(rej), negs, len(trs))
   # ---- 1. TLC: model check + export (one run per world), strict models, simulations, deeper models
   jobs, kinds = [], []
   for n in worlds:
@@ -76,7 +107,7 @@ def run(ctx):
     kinds.append(("strict", n))
   jobs.append(_job("MC_%s_q.cfg" % COVER_QUICK, workers=2, coverage=True))
   kinds.append(("cover", COVER_QUICK))
-  sims = SIM_QUICK if quick else [(n, 60) for n in allw if not n.startswith("hub")]
+  sims = SIM_QUICK if quick else [(n, 30) for n in allw if not n.startswith("hub") and split(n)[0] not in gc.BUSY]
   depth = 30 if quick else 80
   for k, (n, num) in enumerate(sims):
     jobs.append(_job("EX_sim%d_%s.cfg" % (depth, n), workers=1, coverage=False, simulate=dict(num=num),
@@ -84,11 +115,28 @@ def run(ctx):
     kinds.append(("sim", n))
   if not quick:
     for n in allw:
-      jobs.append(_job("MC_%s_t.cfg" % n, workers=3, coverage=False, timeout=2400))
+      jobs.append(_job("MC_%s_t.cfg" % n, workers=2, coverage=False, timeout=2400))
       kinds.append(("deep", n))
   t0 = time.time()
-  res = tlc.run_many(jobs, parallel=8 if quick else 6)
-  phases = dict(tlc_s=round(time.time() - t0, 1))
+  import concurrent.futures
+  errs = []
+
+  def guarded(f, *a, **kw):
+    try:
+      return f(*a, **kw)
+    except Exception as e:      # noqa: re-raised below, after all runs have finished
+      errs.append(e)
+  with concurrent.futures.ThreadPoolExecutor(12 if quick else 5) as ex:
+    futs = []
+    for j in jobs:
+      j = dict(j)
+      futs.append(ex.submit(guarded, tlc.run, j.pop("spec_dir"), j.pop("module"), j.pop("cfg"), **j))
+    vf = [ex.submit(guarded, vjob, n) for n in sorted(by)]
+    res = [f.result() for f in futs]
+    [f.result() for f in vf]
+  if errs:
+    raise errs[0]
+  phases["tlc_s"] = round(time.time() - t0, 1)
   behs = {}          # world name -> behaviours
   tags = {}
   acts_taken = {}
@@ -139,7 +187,7 @@ def run(ctx):
   # ---- 2. spec -> code
   from harness.adapters_x03 import norm_behaviour
   t0 = time.time()
-  cap = 200 if quick else None
+  cap = 160 if quick else 1500
   nvar = 2 if quick else 6
   per = {}
   neg = None
@@ -148,8 +196,8 @@ def run(ctx):
     bs = behs[n]
     total = len(bs)
     if cap is not None and len(bs) > cap:
-      longs = [b for b in bs if len(b) > 8]
-      shorts = [b for b in bs if len(b) <= 8]
+      longs = [b for b in bs if len(b) > 8 or b[-1]["a"] == "DetectBusy"]     # always replayed
+      shorts = [b for b in bs if not (len(b) > 8 or b[-1]["a"] == "DetectBusy")]
       bs = longs + rnd.sample(shorts, max(0, cap - len(longs)))
     bs = [norm_behaviour(b) for b in bs]
     st_all = dict(ok=0, diverted=0, mismatch=0)
@@ -176,41 +224,7 @@ def run(ctx):
   if neg is not None:
     _replay_negative_control(ctx, neg)
 
-  # ---- 3. code -> spec
-  t0 = time.time()
-  tw = TRACE_QUICK if quick else [n for n in allw]
-  ntr = 14 if quick else 150
-  length = 24 if quick else 50
-  items = []
-  for n in tw:
-    w, nb = split(n)
-    for i in range(ntr):
-      items.append(dict(world=w, nbuf=nb, variant=(ctx.seed + i) % 24, seed=ctx.seed * 100003 + i * 31 + len(n), n=length))
-  out = core.run_driver("props.X03:drive", items, chunk=4 if quick else 10)
-  phases["driver_s"] = round(time.time() - t0, 1)
-  t0 = time.time()
-  by = {}
-  for it, tr in zip(items, out):
-    by.setdefault("%s_b%d" % (it["world"], it["nbuf"]), []).append((it, tr))
-  vres = {}
-
-  def vjob(n):
-    trs = [tr for _, tr in by[n]]
-    negs = []
-    for kind in ("out", "bufs", "tbl"):
-      for tr in trs:
-        if all(e["wf"] for e in tr):
-          b = _corrupt(tr, kind)
-          if b is not None:
-            negs.append((kind, b))
-            break
-    r, rej = tracecheck.validate("forwarding", "TraceForwarding", "Trace_%s.cfg" % n, trs + [b for _, b in negs],
-                                 tag="X03", timeout=1500)
-    vres[n] = (r, dict(rej), negs, len(trs))
-  import concurrent.futures
-  with concurrent.futures.ThreadPoolExecutor(6) as ex:
-    list(ex.map(vjob, sorted(by)))
-  phases["trace_validation_s"] = round(time.time() - t0, 1)
+  # ---- 3. code -> spec: verdicts of the trace validation (run together with the model runs above)
   nrej = 0
   nev = 0
   negok = {}
@@ -318,6 +332,8 @@ def _wellformed(a, obs):
     return set(obs) == {"tbls", "bufs"} and tbls_ok(obs["tbls"])
   if a == "Detect":
     return set(obs) == {"tbls", "bufs", "adj"} and tbls_ok(obs["tbls"])
+  if a == "DetectBusy":
+    return set(obs) == {"tbls", "bufs", "adj", "again", "lost"} and tbls_ok(obs["tbls"])
   return obs == {"x": 0}
 
 
@@ -328,7 +344,40 @@ def _blank(a, nsw):
     return dict(tbls=[[] for _ in range(nsw)], bufs=[0] * nsw)
   if a == "Detect":
     return dict(tbls=[[] for _ in range(nsw)], bufs=[0] * nsw, adj=[])
+  if a == "DetectBusy":
+    return dict(tbls=[[] for _ in range(nsw)], bufs=[0] * nsw, adj=[], again=0, lost=0)
   return {"x": 0}
+
+
+def _busy_pairs(t, at, up, adj, spoke):
+  """(h, d) for which Forwarding!DetectBusy is enabled: a cut is pending, both hosts are known to the
+  controller, and the unique shortest path between their switches (over the cables the controller knows) does
+  not use a cut cable"""
+  if adj == up or not (up <= adj):
+    return []
+  nb = {}
+  for l in adj:
+    nb.setdefault(l[0], set()).add(l[2])
+    nb.setdefault(l[2], set()).add(l[0])
+  out = []
+  for h in sorted(spoke):
+    for d in sorted(spoke):
+      if h == d:
+        continue
+      a, b = at[h][0], at[d][0]
+      paths = [[a]]
+      found = []
+      for _ in range(t["ns"]):
+        found = [p for p in paths if p[-1] == b]
+        if found or not paths:
+          break
+        paths = [p + [x] for p in paths for x in sorted(nb.get(p[-1], ())) if x not in p]
+      if len(found) != 1:
+        continue
+      r = found[0]
+      if all(any({l[0], l[2]} == {r[i], r[i + 1]} for l in up) for i in range(len(r) - 1)):
+        out.append((h, d))
+  return out
 
 
 def drive(item):
@@ -350,9 +399,15 @@ def drive(item):
   dsts = list(hosts) * 3 + [UNK, BCAST, BCAST, MCAST]
   shapes = ["a"] * 5 + ["b"] * 3 + ["r", "l"]
   tr = []
-  for _ in range(item["n"]):
+  busy = item["world"] in gc.BUSY
+  spoke = set()
+  for step in range(item["n"]):
     k = rnd.random()
-    if multi and not (up <= adj):
+    cand = _busy_pairs(t, at, up, adj, spoke) if busy and step >= 4 else []
+    if cand and (k < 0.5 or step == item["n"] - 1):
+      h, d = rnd.choice(cand)
+      a, args = "DetectBusy", dict(h=h, d=d)
+    elif multi and not (up <= adj):
       a, args = "Detect", dict(x=0)                       # a restored cable: the spec leaves Sends out until discovery found it
     elif k < 0.66:
       a, args = "Send", dict(h=rnd.choice(hosts), dst=rnd.choice(dsts), sh=rnd.choice(shapes))
@@ -402,6 +457,10 @@ def drive(item):
     tr.append(ev)
     if not wf:
       break
+    if a == "DetectBusy":
+      break                                                # ages unknown from here on: the behaviour ends
+    if a == "Send" and args["sh"] != "l":
+      spoke.add(args["h"])
     if a == "Move":
       at[args["h"]] = (args["s"], args["p"])
     elif a == "Cut":
